@@ -172,6 +172,11 @@ func openReader(src io.ReadCloser, cfg gen.Config, jobs uint, extra map[string]a
 	for k, v := range extra {
 		ctx[k] = v
 	}
+	if nb, ok := extra["verif.nobsversion"]; ok && nb.(bool) {
+		// headerless reader described by a context WITHOUT the optional bsVersion entry (the reader's default applies)
+		delete(ctx, "verif.nobsversion")
+		delete(ctx, "bsVersion")
+	}
 	var rd *kio.Reader
 	var err error
 	if sb, ok := extra["verif.smallbuf"]; ok && sb.(bool) {
